@@ -203,15 +203,32 @@ def run(tier, seed, replay=None):
             r2 = rng.choice([0.25, 0.75])
             nh, xh = unit(nrm), unit(xax)
             fmt = lambda v: ' '.join(repr(float(x)) for x in v)  # noqa
+            # parameter ranges of the records: not always the canonical ones (a range may start anywhere)
+            twopi = 6.283185307179586
+            u0 = rng.choice([0.0, 0.0, 0.5, -1.0])
+            u1 = u0 + rng.choice([twopi, 1.5, 3.0])
+            v0 = rng.choice([0.0, -1.5, 0.75, 2.0])
+            v1 = v0 + rng.choice([2.0, 0.5, 3.25])
+            full = (u0 == 0.0 and u1 == twopi)
+            ex_, ey_ = xh, unit(np.cross(nh, xh))
+
+            def on_circle_arc(p, rad):
+                return abs(np.linalg.norm(p - c) - rad) < 1e-9 and abs(np.dot(p - c, nh)) < 1e-9
+
+            def cyl_ok(o, p):
+                # on the cylinder of radius r about the axis through c, with axial coordinate inside the record's v-range
+                ax = float(np.dot(p - c, nh))
+                return abs(np.linalg.norm(np.cross(p - c, nh)) - r) < 1e-9 and v0 - 1e-9 <= ax <= v1 + 1e-9
             cases = {
                 'circle': ('130 1 0 0\n3\n%r\n%s\n%s\n%s\n0 6.283185307179586\n0\n' % (r, fmt(c), fmt(nrm), fmt(xax)),
                            lambda o, p: abs(np.linalg.norm(p - c) - r) < 1e-9 and abs(np.dot(p - c, nh)) < 1e-9),
-                'line': ('120 1 0 0\n3\n%s\n%s\n1\n0 2\n0\n' % (fmt(c), fmt(nrm)),
-                         lambda o, p: np.linalg.norm(np.cross(p - c, nh)) < 1e-9),
+                'line': ('120 1 0 0\n3\n%s\n%s\n1\n%r %r\n0\n' % (fmt(c), fmt(nrm), v0, v1),
+                         lambda o, p: np.linalg.norm(np.cross(p - c, nh)) < 1e-9
+                         and min(v0, v1) * np.linalg.norm(nrm) - 1e-9 <= np.dot(p - c, nh) <= max(v0, v1) * np.linalg.norm(nrm) + 1e-9),
                 'sphere': ('270 1 0 0\n3\n%r\n%s\n%s\n%s\n0 6.283185307179586\n-1.5707963267948966 1.5707963267948966\n0\n' % (r, fmt(c), fmt(nrm), fmt(xax)),
                            lambda o, p: abs(np.linalg.norm(p - c) - r) < 1e-9),
-                'cylinder': ('260 1 0 0\n3\n%r\n%s\n%s\n%s\n1\n0 6.283185307179586\n0 2\n0\n' % (r, fmt(c), fmt(nrm), fmt(xax)),
-                             lambda o, p: abs(np.linalg.norm(np.cross(p - c, nh)) - r) < 1e-9),
+                'cylinder': ('260 1 0 0\n3\n%r\n%s\n%s\n%s\n1\n0 6.283185307179586\n%r %r\n0\n' % (r, fmt(c), fmt(nh), fmt(xax), v0, v1),
+                             cyl_ok),
                 'torus': ('290 1 0 0\n3\n%r\n%r\n%s\n%s\n%s\n0\n0 6.283185307179586\n0 6.283185307179586\n0\n' % (r + 1, r2, fmt(c), fmt(nrm), fmt(xax)),
                           lambda o, p: abs(math.hypot(np.linalg.norm(np.cross(p - c, nh)) - (r + 1), np.dot(p - c, nh)) - r2) < 1e-9),
                 'disc': ('292 1 0 0\n3\n%s\n%r\n%s\n%s\n1\n0\n0\n0\n0\n0 %r\n0 6.283185307179586\n0\n' % (fmt(c), r, fmt(nrm), fmt(xax), r),
